@@ -372,6 +372,21 @@ var c05Layouts = []string{
 	c05Conf("", "", "u u1 2 -;u * 1 -", "u * 1 -"),  // 6 named and wildcard on the same leaf
 	c05Conf("", "", "u * 1 -", "u * 1 -"),           // 7 layout 6 with the named limit dropped
 	c05Conf("u u1 4 -", "u u1 3 -", "", "g g2 1 -"), // 8 named user on two levels, group on the other leaf
+	c05Conf("", "", "u u1 - 1", ""),                 // 9 named user, application limit only (no resource limit anywhere)
+}
+
+// three applications of one user under a limit of one application and no resource limit: the first runs, is removed
+// (its tracker goes idle), the other two are waiting (sixth seeding round, C05-6)
+func scnUGMAppsOnly(name string) *world.Scenario {
+	s := scnUGM(name, []string{c05Layouts[9]}, []string{"SCHEDULE", "ASK", "RELEASE", "RELEASE_ALL", "APP_ADD", "APP_REMOVE"}, nil)
+	s.Apps = append(s.Apps, world.AppSpec{ID: "app4", Queue: "root.p.a", User: "u1", Groups: []string{"g1"}})
+	s.Asks = []world.AskSpec{
+		{Key: "a1", App: "app1", Res: world.M(1), Create: 1001},
+		{Key: "b1", App: "app2", Res: world.M(1), Create: 1002},
+		{Key: "d1", App: "app4", Res: world.M(1), Create: 1003},
+	}
+	s.Prefix = []world.Op{op("NODE_ADD", "n1"), op("APP_ADD", "app1"), op("APP_ADD", "app2"), op("APP_ADD", "app4"), op("ASK", "a1"), op("ASK", "b1"), op("ASK", "d1"), op("SCHEDULE")}
+	return s
 }
 
 // a reservation made while the user quota allowed the ask; the user's usage then grows through an RM-placed allocation
@@ -424,6 +439,9 @@ func init() {
 	mc.Register(&mc.ScenarioDef{Scn: scnUGMReserve("ugm-reserve"), Monitors: []mc.Monitor{monC05()}})
 	quick = append(quick, Run{Scenario: "ugm-reserve", Depth: 5, MapModes: []int{1}})
 	thorough = append(thorough, Run{Scenario: "ugm-reserve", Depth: 8, MapModes: []int{1, 2}})
+	mc.Register(&mc.ScenarioDef{Scn: scnUGMAppsOnly("ugm-appsonly"), Monitors: []mc.Monitor{monC05()}})
+	quick = append(quick, Run{Scenario: "ugm-appsonly", Depth: 6, MapModes: []int{1}})
+	thorough = append(thorough, Run{Scenario: "ugm-appsonly", Depth: 9, MapModes: []int{1, 2}})
 	reload := []string{"SCHEDULE", "ASK", "RELEASE", "APP_ADD", "CONFIG"}
 	mc.Register(&mc.ScenarioDef{Scn: scnUGM("ugm-reload", c05Layouts, reload, []world.Op{op("NODE_ADD", "n1"), op("APP_ADD", "app1"), op("ASK", "a1"), op("SCHEDULE")}), Monitors: []mc.Monitor{monC05()}})
 	mc.Register(&mc.ScenarioDef{Scn: scnUGM("ugm-reload-2apps", c05Layouts, reload, []world.Op{op("NODE_ADD", "n1"), op("APP_ADD", "app1"), op("ASK", "a1"), op("SCHEDULE"), op("APP_ADD", "app3"), op("ASK", "c1"), op("SCHEDULE")}), Monitors: []mc.Monitor{monC05()}})
